@@ -106,12 +106,12 @@ CHECKS["C16"] = dict(
 
 CHECKS["C04"] = dict(
   technique="symbolic execution of go/ssa with SMT (z3): symbolic values and symbolic wire bytes through the real DataType.Bytes / GoValue (encoding/binary, bytes.Buffer, math/big, time modelled), round trip compared bytewise",
-  text="Bounded symbolic model checking of asetypes.DataType.Bytes, GoValue/goValue, ByteSize, Decimal.* and the asetime helpers they call. Decided for all values of the Go type (full-width symbolic): INT1/2/4/8, UINT2/4/8, FLT4/FLT8 (all bit patterns), BIT, the nullable families INTN/UINTN/FLTN for every legal length with NULL = length 0, BINARY/VARBINARY/LONGBINARY/IMAGE and CHAR/VARCHAR/LONGCHAR/TEXT (lengths 0..4, arbitrary bytes), SHORTMONEY (all int32 counts), MONEY (decode direction, non-negative counts), DECN/NUMN (sign + 1..4 magnitude bytes): decode(encode(v)) = v and encode(decode(bytes)) = bytes. UNITEXT: every valid UTF-8 text of <=4 (quick) / 6 (thorough) bytes, all planes, without trailing NUL, survives encode+decode (solver-found defect, fixed). DATE: the calendar day is encoded regardless of the time of day for days within 1000 days of 1900-01-01 (solver-found defect for dates before 1900, fixed).",
-  note="Claimed in part. Trusted: symgo executor with its encoding/binary, bytes.Buffer, math/big and time.Time models (time: day number + nanoseconds, civil fields related by the days-from-civil formula, month case-split), z3. Temporal types (DATE, TIME, SHORTDATE, DATETIME, BIGDATETIMEN, BIGTIMEN and nullable variants): the composed decode(encode(v)) query is not decided by z3; instead each direction is decided against the reference layout under C05 (harnesses HarnessC05_*Encode / *Decode), and since the reference layout is injective on (day, time of day to the tick) the round trip on the calendar/clock fields follows from the two directions. Outside / not decided: the composed temporal round trip as one query, times in the last half tick of a day for TIME/DATETIME (they round up to 24:00:00), the encode direction of 8-byte MONEY, strings longer than 4 bytes (UNITEXT: 4/6 bytes), UNITEXT texts ending in NUL (trimmed by design), the PARAMS/ROW package leg.",
+  text="Bounded symbolic model checking of asetypes.DataType.Bytes, GoValue/goValue, ByteSize, Decimal.* and the asetime helpers they call. Decided for all values of the Go type (full-width symbolic): INT1/2/4/8, UINT2/4/8, FLT4/FLT8 (all bit patterns), BIT, the nullable families INTN/UINTN/FLTN for every legal length with NULL = length 0, BINARY/VARBINARY/LONGBINARY/IMAGE and CHAR/VARCHAR/LONGCHAR/TEXT (lengths 0..4, arbitrary bytes), SHORTMONEY (all int32 counts), MONEY (all int64 counts, per direction under C05), DECN/NUMN (sign + 1..4 magnitude bytes): decode(encode(v)) = v and encode(decode(bytes)) = bytes. UNITEXT: every valid UTF-8 text of <=4 (quick) / 6 (thorough) bytes, all planes, without trailing NUL, survives encode+decode (solver-found defect, fixed). DATE: the calendar day is encoded regardless of the time of day for days within 1000 days of 1900-01-01 (solver-found defect for dates before 1900, fixed).",
+  note="Claimed in part. Trusted: symgo executor with its encoding/binary, bytes.Buffer, math/big and time.Time models (time: day number + nanoseconds, civil fields related by the days-from-civil formula, month case-split), z3. Temporal types (DATE, TIME, SHORTDATE, DATETIME, BIGDATETIMEN, BIGTIMEN and nullable variants): the composed decode(encode(v)) query is not decided by z3; instead each direction is decided against the reference layout under C05 (harnesses HarnessC05_*Encode / *Decode), and since the reference layout is injective on (day, time of day to the tick) the round trip on the calendar/clock fields follows from the two directions. Outside / not decided: the composed temporal round trip as one query, times in the last half tick of a day for TIME/DATETIME (they round up to 24:00:00), strings longer than 4 bytes (UNITEXT: 4/6 bytes), UNITEXT texts ending in NUL (trimmed by design), the PARAMS/ROW package leg.",
   ref="DESIGN.md §4 C04")
 CHECKS["C05"] = dict(
   technique="symbolic execution of go/ssa with SMT (z3): the library's encodings compared bytewise with an independent reference layout written in the harness (shifts, sign byte + big-endian magnitude, high/low money words) for symbolic values and symbolic wire bytes",
-  text="Same harness family as C04 with the reference layout as oracle: little-endian two's complement integers of 1/2/4/8 bytes, IEEE bit patterns for FLT4/FLT8, BIT as 0/1, nullable families selecting the width by the length, binary/character data as the bytes themselves, SHORTMONEY as the 32-bit 1/10000 count, MONEY as high word then low word (decode direction, non-negative counts), DECN/NUMN as sign byte plus big-endian magnitude, the temporal layouts per direction - DATE/DATEN days since 1900-01-01 (encode: every valid date of the explored centuries, month case-split, year-of-century/day/time of day symbolic, against an independent days-from-civil; decode: all int32 day offsets of years 1..9999), TIME/TIMEN and DATETIME/DATETIMEN ticks (decode within one tick, encode to the nearest tick), SHORTDATE days+minutes (1900..2078), BIGTIMEN and BIGDATETIMEN microseconds since midnight / 0000-01-01 (all microseconds of all days) -, UNITEXT as UTF-16LE (encode: texts of <=4/6 UTF-8 bytes against a reference encoder written from the UTF-16 definition; decode: 1-2 arbitrary code units incl. surrogate pairs) - decided in both directions (value -> prescribed bytes, prescribed bytes -> value) for all values within the stated bounds.",
+  text="Same harness family as C04 with the reference layout as oracle: little-endian two's complement integers of 1/2/4/8 bytes, IEEE bit patterns for FLT4/FLT8, BIT as 0/1, nullable families selecting the width by the length, binary/character data as the bytes themselves, SHORTMONEY as the 32-bit 1/10000 count, MONEY/MONEYN(8) as high word then low word (both directions, all int64 counts, value first), DECN/NUMN as sign byte plus big-endian magnitude, the temporal layouts per direction - DATE/DATEN days since 1900-01-01 (encode: every valid date of the explored centuries, month case-split, year-of-century/day/time of day symbolic, against an independent days-from-civil; decode: all int32 day offsets of years 1..9999), TIME/TIMEN and DATETIME/DATETIMEN ticks (decode within one tick, encode to the nearest tick), SHORTDATE days+minutes (1900..2078), BIGTIMEN and BIGDATETIMEN microseconds since midnight / 0000-01-01 (all microseconds of all days) -, UNITEXT as UTF-16LE (encode: texts of <=4/6 UTF-8 bytes against a reference encoder written from the UTF-16 definition; decode: 1-2 arbitrary code units incl. surrogate pairs) - decided in both directions (value -> prescribed bytes, prescribed bytes -> value) for all values within the stated bounds.",
   note="Claimed in part. Trusted and outside: as C04; dates: quick explores the centuries 00,03,15,17,18,19,20,99 (all 100 in thorough), all months, every year of the century and day symbolic; the time model (package time: day number + nanoseconds, AddDate/Add/Unix linear, civil fields of time.Date kept) is trusted and cross-checked natively. The calendar helpers (TimeToMicroseconds/MicrosecondsToTime/DurationFromDateTime agreeing with the proleptic Gregorian calendar for years 1..9999), and the big-endian byte order setting are not decided (TimeToMicroseconds/MicrosecondsToTime compute in uint64: 64-bit bit-vector multiplication/division by 86400000000 is not decided by z3 within 60 s; kept as Undecided* functions, not run); UNITEXT: unpaired surrogates and texts beyond the stated lengths are outside.",
   ref="DESIGN.md §4 C05")
 
